@@ -45,8 +45,10 @@ def specPath (e : UrlEnv) (target : Bytes) : Option (Bytes × Bytes) :=
     | none => none
     | some (host, rp) => (pctDecode rp).map fun p => (host, p)
 
-/-- The request as the property sees it. -/
+/-- The request as the property sees it: strictness is the CONFIGURED
+`strict_sni_check`, whatever certificate the server was given. -/
 def specCtx (cf : Conf) (r : Req) : Option Ctx :=
+  (fun (c : Option Ctx) => c.map fun c => { c with strict := cf.strict }) <|
   match r.tr with
   | .udp => some (mkCtxConn cf .udp none)
   | .tcp => some (mkCtxConn cf .tcp none)
